@@ -8,7 +8,7 @@ and uses the helpers below.  Nothing here decides a property by sampling: sampli
 the model against the implementation and searches for a failing input once an obligation or the
 correspondence is broken.
 """
-import hashlib, json, os, random, re, shutil, subprocess, sys, tempfile, time
+import errno, hashlib, json, os, random, re, shutil, subprocess, sys, tempfile, time
 
 from . import build_repo
 
@@ -35,8 +35,16 @@ def sh(cmd, cwd=None, input=None, timeout=None, env=None):
     if env:
         e.update(env)
     try:
-        r = subprocess.run(cmd, cwd=cwd, input=input, stdout=subprocess.PIPE, stderr=subprocess.PIPE, text=True,
-                           timeout=timeout, env=e, errors="replace")
+        for attempt in range(40):
+            try:
+                r = subprocess.run(cmd, cwd=cwd, input=input, stdout=subprocess.PIPE, stderr=subprocess.PIPE, text=True,
+                                   timeout=timeout, env=e, errors="replace")
+                break
+            except OSError as ex:
+                # ETXTBSY / ENOENT for a moment while another check relinks the binary under the build lock: wait, do not alarm
+                if ex.errno not in (errno.ETXTBSY, errno.ENOENT) or attempt == 39:
+                    raise
+                time.sleep(1.5)
         return r.returncode, r.stdout, r.stderr
     except subprocess.TimeoutExpired as ex:
         return -999, (ex.stdout or b"").decode("latin-1") if isinstance(ex.stdout, bytes) else (ex.stdout or ""), "TIMEOUT"
